@@ -168,6 +168,29 @@ pub enum Op {
     /// by the salt): the same text twice in a row is what a corpus with repeated lines, or a
     /// caller resetting a gold sentence to its unannotated form, produces
     Reparse(Fmt, u16),
+    /// what a caller does between two updates: predict with one of two predictors built from
+    /// resources/model.bin (0: boundaries only, 1: + fill_tags with stored tag scores). The
+    /// following update must still give exactly what the constructor gives (no scores, no tags
+    /// of the prediction).
+    Predict(u8),
+    /// overwrite one boundary label through boundaries_mut()
+    Edit(u16, u8),
+}
+
+fn predictors() -> &'static [vaporetto::Predictor] {
+    static P: std::sync::OnceLock<Vec<vaporetto::Predictor>> = std::sync::OnceLock::new();
+    P.get_or_init(|| {
+        let bytes = std::fs::read("/repo/resources/model.bin").expect("resources/model.bin");
+        [false, true]
+            .into_iter()
+            .map(|tags| {
+                let (m, _) = vaporetto::Model::read_slice(&bytes).expect("golden model");
+                let mut p = vaporetto::Predictor::new(m, tags).expect("golden predictor");
+                p.store_tag_scores(tags);
+                p
+            })
+            .collect()
+    })
 }
 
 #[derive(Clone, Debug, Serialize, Deserialize)]
@@ -178,13 +201,14 @@ pub struct History {
 
 pub fn test_history(h: &History) -> TestResult {
     let dflt = default_obs();
-    let mut s = match &h.start {
+    let mut s: Sentence<'static, 'static> = match &h.start {
         Some((fmt, x)) => match construct(*fmt, x) {
             Ok(s) => s,
             Err(_) => Sentence::default(),
         },
         None => Sentence::default(),
     };
+    let mut prev_predicted = false;
     let mut prev = util::observe(&s);
     let mut prev_failed = false;
     let mut nontrivial = false;
@@ -227,10 +251,11 @@ pub fn test_history(h: &History) -> TestResult {
                         let f = util::observe(&fresh);
                         ensure_eq!(&o, &f, "op {k} {op:?}: state depends on the history");
                         check_ok(*fmt, x, &o, &reference(*fmt, x))?;
-                        if prev.n_tags > 0 || prev_failed {
+                        if prev.n_tags > 0 || prev_failed || prev_predicted {
                             nontrivial = true;
                         }
                         info = info
+                            .class(prev_predicted, "ok-update-after-prediction")
                             .class(prev.n_tags > 0, "ok-update-after-tagged-state")
                             .class(prev_failed, "ok-update-after-failed-update");
                         prev_failed = false;
@@ -245,6 +270,29 @@ pub fn test_history(h: &History) -> TestResult {
                         info = info.class(true, "failed-update");
                     }
                 }
+                prev = o;
+                prev_predicted = false;
+            }
+            Op::Predict(i) => {
+                let p = &predictors()[*i as usize % 2];
+                p.predict(&mut s);
+                if *i % 2 == 1 {
+                    s.fill_tags();
+                }
+                let o = util::observe(&s);
+                util::check_consistent(&o).map_err(|e| format!("after op {k} {op:?}: {e}"))?;
+                ensure_eq!(&o.text, &prev.text, "op {k}: predict changed the text");
+                prev = o;
+                prev_predicted = true;
+            }
+            Op::Edit(sel, l) => {
+                let bs = s.boundaries_mut();
+                if !bs.is_empty() {
+                    let i = gen::pick(*sel, bs.len());
+                    bs[i] = oracle::boundary_of(*l);
+                }
+                let o = util::observe(&s);
+                util::check_consistent(&o).map_err(|e| format!("after op {k} {op:?}: {e}"))?;
                 prev = o;
             }
             Op::ResetTags(n) => {
@@ -290,6 +338,8 @@ pub fn history_strategy() -> impl Strategy<Value = History> {
                 5 => (fmt_strategy(), string_strategy(8)).prop_map(|(f, x)| Op::Update(f, x)),
                 1 => (0usize..=4).prop_map(Op::ResetTags),
                 2 => (fmt_strategy(), any::<u16>()).prop_map(|(f, x)| Op::Reparse(f, x)),
+                2 => (0u8..2).prop_map(Op::Predict),
+                1 => (any::<u16>(), 0u8..3).prop_map(|(s, l)| Op::Edit(s, l)),
             ],
             1..=8,
         ),
@@ -297,7 +347,40 @@ pub fn history_strategy() -> impl Strategy<Value = History> {
         .prop_map(|(start, ops)| History { start, ops })
 }
 
+fn scale_strings() -> Vec<String> {
+    let mut v = vec![];
+    for (k, r) in gen::scale_sentences(3, true).into_iter().enumerate() {
+        let mut two = r.clone();
+        for l in two.labels.iter_mut() {
+            if *l == UNK {
+                *l = 1;
+            }
+        }
+        let t = oracle::ref_write_tokenized(&two);
+        let p = oracle::ref_write_partial(&r);
+        // the valid forms, and the same strings damaged at the very end / the very start
+        match k % 3 {
+            0 => v.push(format!("{t}\0")),
+            1 => v.push(format!("{p} ")),
+            _ => v.push(format!(" {t}")),
+        }
+        v.push(r.text());
+        v.push(t);
+        v.push(p);
+    }
+    v
+}
+
 pub fn run(rep: &mut Report) {
+    rep.run_enum(
+        "scale-strings",
+        "the raw, tokenized and partial-annotation forms of the deterministic scale sentences \
+(65,535 .. 131,080 characters, 70,000-character token / tag, 255..300 tag columns) and copies \
+damaged at the first / last character: same clauses as strings",
+        false,
+        scale_strings().into_iter(),
+        |x: &String| test_string(x).map(|mut i| { i.nontrivial = true; i }),
+    );
     let n = rep.n(200000, 10000000);
     rep.run_prop(
         "strings",
@@ -315,7 +398,8 @@ output re-parses. Non-trivial = accepted annotated string with >= 1 escape and >
     rep.run_prop(
         "histories",
         "sequences of 1-8 update_raw/update_tokenized/update_partial_annotation/reset_tags(k<=4) \
-calls on one sentence (started from default or a constructor): after every call the observation \
+calls on one sentence (started from default or a constructor), interleaved with what callers do \
+between updates (predict / predict + fill_tags with resources/model.bin, boundary edits): after every call the observation \
 is consistent, equals a freshly constructed sentence for the same input (or the default sentence \
 after a failure). Non-trivial = an Ok update follows a state with n_tags > 0 or a failed update.",
         n,
